@@ -73,6 +73,16 @@ pub fn check_spans(rep: &mut Report, spans: &[(usize, usize)], origin: &str, wel
             }
         }
     }
+    // (3') maximality (C13_maximal_iff): a dropped lint that covers a character shares one with a kept lint
+    for (i, l) in input.iter().enumerate() {
+        if !used[i] && l.span.start < l.span.end {
+            let ok = out.iter().any(|k| k.span.start.max(l.span.start) < k.span.end.min(l.span.end));
+            if !ok {
+                rep.fail("dropped_without_conflict", format!("dropped lint {i} {:?} shares no character with any kept lint: the kept set is not maximal", l.span), inp_json.clone());
+                return;
+            }
+        }
+    }
     // (4) back to front: applying one edit per kept lint, last first, equals the simultaneous splice
     let n = spans.iter().map(|(_, e)| *e).max().unwrap_or(0);
     let src: Vec<char> = (0..n).map(|i| char::from_u32(0x61 + (i % 26) as u32).unwrap()).collect();
@@ -456,8 +466,411 @@ const WASM_TRIGGERS: &[&str] = &[
     "i think its a alot of work ; really", "He hop to to see you  soon", "In in the the end end , it it was was fine fine .",
 ];
 
-pub fn replay_any(rep: &mut Report, cxw: &mut Option<WasmCtx>, dict: &Arc<FstDictionary>, v: &Value) {
+// ======================= phase 4: harper-cli as a binary; merge_linters! instantiated =======================
+
+// `crate::linting::{Lint, Linter}`, `crate::{Document, remove_overlaps}` and `paste` are what the macro body names
+mod linting {
+    pub use harper_core::linting::{Lint, Linter};
+}
+#[path = "/repo/harper-core/src/linting/merge_linters.rs"]
+#[allow(unused_macros, unused_imports)]
+mod merge_linters_src;
+
+thread_local! {
+    static PLAN: std::cell::RefCell<Vec<Vec<Lint>>> = std::cell::RefCell::new(vec![]);
+}
+macro_rules! test_linter {
+    ($n:ident, $i:expr) => {
+        #[derive(Default)]
+        pub struct $n;
+        impl Linter for $n {
+            fn lint(&mut self, _d: &Document) -> Vec<Lint> {
+                PLAN.with(|p| p.borrow().get($i).cloned().unwrap_or_default())
+            }
+            fn description(&self) -> &str {
+                "test sub-linter"
+            }
+        }
+    };
+}
+test_linter!(TestSubA, 0);
+test_linter!(TestSubB, 1);
+test_linter!(TestSubC, 2);
+mod merged_two {
+    use super::merge_linters_src::merge_linters;
+    use super::{TestSubA, TestSubB};
+    merge_linters!(MergedTwo => TestSubA, TestSubB => "two test sub-linters through the real merge_linters!");
+}
+mod merged_three {
+    use super::merge_linters_src::merge_linters;
+    use super::{TestSubA, TestSubB, TestSubC};
+    merge_linters!(MergedThree => TestSubA, TestSubB, TestSubC => "three test sub-linters through the real merge_linters!");
+}
+
+/// The real macro body (expanded in this crate from /repo's merge_linters.rs) on planned sub-linter outputs:
+/// M line = kept ids against Model/C13Callers.merge_lint; oracle: disjoint, members come from a sub-linter.
+pub fn check_merge_macro(rep: &mut Report, dict: &Arc<FstDictionary>, subs: &[Vec<(usize, usize)>], origin: &str) {
+    rep.eval();
+    let doc = &Document::new_plain_english("merge", dict);
+    let inp = json!({"kind": "mergemacro", "subs": subs.iter().map(|s| s.iter().map(|(a, b)| vec![*a, *b]).collect::<Vec<_>>()).collect::<Vec<_>>(), "origin": origin});
+    let mut next = 0usize;
+    let plan: Vec<Vec<Lint>> = subs
+        .iter()
+        .map(|s| {
+            s.iter()
+                .map(|(a, b)| {
+                    let l = Lint { span: Span { start: *a, end: *b }, message: next.to_string(), ..Default::default() };
+                    next += 1;
+                    l
+                })
+                .collect()
+        })
+        .collect();
+    let all: Vec<(usize, usize)> = subs.iter().flatten().copied().collect();
+    PLAN.with(|p| *p.borrow_mut() = plan);
+    let out = guarded(|| if subs.len() == 2 { merged_two::MergedTwo::default().lint(doc) } else { merged_three::MergedThree::default().lint(doc) });
+    let case_line = format!("M {}", subs.iter().map(|s| s.iter().map(|(a, b)| format!("{a} {b}")).collect::<Vec<_>>().join(" ")).collect::<Vec<_>>().join(" | "));
+    let out = match out {
+        Ok(o) => o,
+        Err(m) => {
+            rep.case(&case_line, "PANIC");
+            rep.fail("merge_macro_panic", format!("merge_linters! linter panicked: {m}"), inp);
+            return;
+        }
+    };
+    let ids: Vec<usize> = out.iter().map(|l| l.message.parse::<usize>().unwrap_or(usize::MAX)).collect();
+    rep.case(case_line.trim_end(), ids.iter().map(|i| i.to_string()).collect::<Vec<_>>().join(" ").trim());
+    let mut used = vec![false; all.len()];
+    for (l, id) in out.iter().zip(&ids) {
+        if *id >= all.len() || used[*id] || (l.span.start, l.span.end) != all[*id] {
+            rep.fail("merge_macro_not_sublist", format!("lint {id} of the merged linter is not an unaltered, once-used lint of a sub-linter"), inp.clone());
+            return;
+        }
+        used[*id] = true;
+    }
+    for i in 0..out.len() {
+        for j in (i + 1)..out.len() {
+            let (a, b) = (out[i].span, out[j].span);
+            if a.start.max(b.start) < a.end.min(b.end) {
+                rep.fail("merge_macro_overlap", format!("the merged linter returns {:?} and {:?}, which share a character", a, b), inp.clone());
+                return;
+            }
+        }
+    }
+    for (i, sp) in all.iter().enumerate() {
+        if !used[i] && sp.0 < sp.1 && !out.iter().any(|k| k.span.start <= sp.0 && sp.0 < k.span.end) {
+            rep.fail("merge_macro_dropped_outside", format!("sub-linter lint {i} {:?} was dropped but does not start inside a kept lint", sp), inp.clone());
+            return;
+        }
+    }
+    rep.count(&format!("mergemacro:subs:{}:dropped:{}", subs.len(), bucket(all.len() - out.len())));
+    if all.len() > out.len() {
+        rep.nontrivial(&subs.to_vec());
+    }
+}
+
+fn fnv32(s: &str) -> u32 {
+    let mut h: u32 = 0x811c9dc5;
+    for b in s.as_bytes() {
+        h ^= *b as u32;
+        h = h.wrapping_mul(0x01000193);
+    }
+    h
+}
+
+/// Builds harper-cli's own main.rs (bin `c13cli` of this package) into the target dir this binary lives in.
+pub fn build_cli(rep: &mut Report) -> Option<std::path::PathBuf> {
+    let exe = std::env::current_exe().ok()?;
+    let debug_dir = exe.parent()?.to_path_buf();
+    let target = debug_dir.parent()?.to_path_buf();
+    let t0 = std::time::Instant::now();
+    let out = std::process::Command::new("cargo")
+        .args(["build", "--offline", "--bin", "c13cli", "--features", "c13x"])
+        .current_dir(env!("CARGO_MANIFEST_DIR"))
+        .env("CARGO_TARGET_DIR", &target)
+        .env("CARGO_NET_OFFLINE", "true")
+        .output();
+    rep.extra.insert("cli_build_seconds".into(), json!(t0.elapsed().as_secs()));
+    match out {
+        Ok(o) if o.status.success() && debug_dir.join("c13cli").exists() => Some(debug_dir.join("c13cli")),
+        Ok(o) => {
+            let err = String::from_utf8_lossy(&o.stderr);
+            let tail: String = err.chars().rev().take(1500).collect::<String>().chars().rev().collect();
+            rep.fail("cli_build", format!("harper-cli/src/main.rs does not build as a binary: {tail}"), json!({"kind": "cli_build"}));
+            None
+        }
+        Err(e) => {
+            rep.fail("cli_build", format!("cannot run cargo: {e}"), json!({"kind": "cli_build"}));
+            None
+        }
+    }
+}
+
+pub struct CliCtx {
+    bin: std::path::PathBuf,
+    dir: std::path::PathBuf,
+    dict: MergedDictionary,
+    group: LintGroup,
+    n: usize,
+}
+impl CliCtx {
+    pub fn new(rep: &mut Report, out: &str) -> Option<Self> {
+        let bin = build_cli(rep)?;
+        let dir = std::path::Path::new(out).join("cli");
+        let _ = std::fs::create_dir_all(dir.join("dicts"));
+        // what the arm builds when neither dictionary file exists: MergedDictionary{curated}
+        let mut d = MergedDictionary::new();
+        d.add_dictionary(FstDictionary::curated());
+        let group = LintGroup::new_curated(Arc::new(d.clone()), Dialect::American);
+        Some(CliCtx { bin, dir, dict: d, group, n: 0 })
+    }
+}
+
+struct CliParsed {
+    coloured: Vec<usize>,
+    labels: Vec<(usize, String)>,
+}
+
+/// Reads the ariadne report back: characters printed in the label colour (SGR 35) on the numbered source
+/// lines, and for every arrow `╰─── message` its column (= the label's anchor) and message.
+fn parse_report(stdout: &str, line_starts: &[usize]) -> Option<CliParsed> {
+    let mut coloured = vec![];
+    let mut labels = vec![];
+    let mut cur_line: Option<usize> = None;
+    for raw in stdout.lines() {
+        let mut chars: Vec<(char, bool)> = vec![];
+        let mut magenta = false;
+        let mut it = raw.chars().peekable();
+        while let Some(c) = it.next() {
+            if c == '\u{1b}' && it.peek() == Some(&'[') {
+                it.next();
+                let mut code = String::new();
+                for d in it.by_ref() {
+                    if d == 'm' {
+                        break;
+                    }
+                    code.push(d);
+                }
+                magenta = code == "35";
+            } else {
+                chars.push((c, magenta));
+            }
+        }
+        let Some(bar) = chars.iter().position(|(c, _)| *c == '│') else { continue };
+        let margin: String = chars[..bar].iter().map(|(c, _)| *c).collect();
+        let content = if chars.len() > bar + 2 { &chars[bar + 2..] } else { &chars[0..0] };
+        if let Ok(n) = margin.trim().parse::<usize>() {
+            if n == 0 || n > line_starts.len() {
+                return None;
+            }
+            cur_line = Some(n - 1);
+            for (i, (_, m)) in content.iter().enumerate() {
+                if *m {
+                    coloured.push(line_starts[n - 1] + i);
+                }
+            }
+        } else if let Some(col) = content.iter().position(|(c, _)| *c == '╰') {
+            let mut j = col + 1;
+            while j < content.len() && content[j].0 == '─' {
+                j += 1;
+            }
+            let msg: String = content[(j + 1).min(content.len())..].iter().map(|(c, _)| *c).collect();
+            labels.push((line_starts[cur_line?] + col, msg));
+        }
+    }
+    Some(CliParsed { coloured, labels })
+}
+
+/// Texts through the real harper-cli BINARY (`lint FILE` and `lint --count FILE`), in parallel batches.
+/// L lines against Model/C13Callers.run_cli_report fed with the raw lints of an identically built LintGroup.
+pub fn check_cli_batch(rep: &mut Report, cx: &mut CliCtx, jobs: &[(String, bool)], origin: &str) {
+    let mut running = vec![];
+    for (text, count) in jobs {
+        cx.n += 1;
+        let f = cx.dir.join(format!("t{}.md", cx.n));
+        if std::fs::write(&f, text).is_err() {
+            continue;
+        }
+        let mut cmd = std::process::Command::new(&cx.bin);
+        cmd.arg("lint").arg(&f);
+        if *count {
+            cmd.arg("--count");
+        }
+        cmd.arg("--user-dict-path").arg(cx.dir.join("dicts/none.txt")).arg("--file-dict-path").arg(cx.dir.join("dicts"));
+        cmd.stdout(std::process::Stdio::piped()).stderr(std::process::Stdio::piped()).stdin(std::process::Stdio::null());
+        match cmd.spawn() {
+            Ok(ch) => running.push((text.clone(), *count, f, Some(ch))),
+            Err(_) => running.push((text.clone(), *count, f, None)),
+        }
+    }
+    for (text, count, f, ch) in running {
+        rep.eval();
+        let inp = json!({"kind": "cli", "text": text, "count": count, "origin": origin});
+        let Some(ch) = ch else {
+            rep.fail("cli_spawn", "cannot start the harper-cli binary".into(), inp);
+            continue;
+        };
+        let Ok(o) = ch.wait_with_output() else {
+            rep.fail("cli_spawn", "cannot collect the harper-cli binary's output".into(), inp);
+            continue;
+        };
+        let _ = std::fs::remove_file(&f);
+        let stdout = String::from_utf8_lossy(&o.stdout).to_string();
+        let src: Vec<char> = text.chars().collect();
+        let raw = guarded(|| {
+            let doc = Document::new(&text, &Markdown::default(), &cx.dict);
+            cx.group.lint(&doc)
+        });
+        let Ok(raw) = raw else {
+            rep.count("cli:lint_panicked(C01's business)");
+            continue;
+        };
+        if raw.iter().any(|l| l.message.contains('\n')) {
+            rep.count("cli:skipped_multiline_message");
+            continue;
+        }
+        let case_line = format!("L {} {}", count as u8, raw.iter().map(|l| format!("{} {} {}", l.span.start, l.span.end, fnv32(&l.message))).collect::<Vec<_>>().join(" "));
+        let case_line = case_line.trim_end();
+        // strip the two "<dictionary path>: No such file" lines the arm prints first
+        let body: Vec<&str> = stdout.lines().filter(|l| !l.contains("(os error")).collect();
+        if count {
+            let line = body.first().map(|l| l.trim()).unwrap_or("");
+            let impl_line = match line.parse::<usize>() {
+                Ok(n) => format!("N {n}"),
+                Err(_) => format!("? {line}"),
+            };
+            rep.case(case_line, &impl_line);
+            rep.count(&format!("cli:count:raw:{}", bucket(raw.len())));
+            continue;
+        }
+        if body.first().map(|l| l.trim()) == Some("No lints found") {
+            rep.case(case_line, "E");
+            rep.count("cli:no_lints");
+            continue;
+        }
+        if raw.iter().any(|l| l.span.start >= l.span.end || src[l.span.start.min(src.len())..l.span.end.min(src.len())].contains(&'\n')) {
+            rep.count("cli:skipped_zero_width_or_multiline_lint");
+            continue;
+        }
+        let mut line_starts = vec![0usize];
+        for (i, c) in src.iter().enumerate() {
+            if *c == '\n' {
+                line_starts.push(i + 1);
+            }
+        }
+        let Some(parsed) = parse_report(&stdout, &line_starts) else {
+            rep.case(case_line, "? unparsable report");
+            continue;
+        };
+        let mut pairs: Vec<(usize, u32)> = parsed.labels.iter().map(|(a, m)| (*a, fnv32(m))).collect();
+        pairs.sort();
+        let impl_line = format!(
+            "L {} | {}",
+            parsed.coloured.iter().map(|p| p.to_string()).collect::<Vec<_>>().join(" "),
+            pairs.iter().map(|(a, h)| format!("{a} {h}")).collect::<Vec<_>>().join(" ")
+        );
+        rep.case(case_line, impl_line.trim());
+        // ---- oracle on what the CLI prints: every label is a lint of the rules, no two labels share a character,
+        //      every unlabelled lint starts inside a labelled one ----
+        let mut used = vec![false; raw.len()];
+        let mut shown: Vec<Span> = vec![];
+        let mut ok = true;
+        for (a, h) in &pairs {
+            match (0..raw.len()).find(|i| !used[*i] && (raw[*i].span.start + raw[*i].span.end) / 2 == *a && fnv32(&raw[*i].message) == *h) {
+                Some(i) => {
+                    used[i] = true;
+                    shown.push(raw[i].span);
+                }
+                None => {
+                    rep.fail("cli_label_not_a_lint", format!("the report has a label anchored at {a} that is no lint of the rules (or one lint labelled twice)"), inp.clone());
+                    ok = false;
+                    break;
+                }
+            }
+        }
+        if !ok {
+            continue;
+        }
+        if o.status.code() != Some(1) {
+            rep.count("cli:unexpected_exit_code");
+        }
+        let mut bad = false;
+        for i in 0..shown.len() {
+            for j in (i + 1)..shown.len() {
+                if shown[i].start.max(shown[j].start) < shown[i].end.min(shown[j].end) {
+                    rep.fail("cli_labels_overlap", format!("harper-cli labels {:?} and {:?}, which share a character: the reported lints cannot all be fixed in one pass", shown[i], shown[j]), inp.clone());
+                    bad = true;
+                    break;
+                }
+            }
+            if bad {
+                break;
+            }
+        }
+        if bad {
+            continue;
+        }
+        for (i, l) in raw.iter().enumerate() {
+            if !used[i] && !shown.iter().any(|k| k.start <= l.span.start && l.span.start < k.end) {
+                rep.fail("cli_dropped_outside", format!("lint {:?} is not labelled and does not start inside a labelled lint", l.span), inp.clone());
+                break;
+            }
+        }
+        rep.count(&format!("cli:labels:{}:unlabelled:{}", bucket(shown.len()), bucket(raw.len() - shown.len())));
+        if raw.len() > shown.len() {
+            rep.nontrivial(&("cli", text.clone()));
+        }
+    }
+}
+
+fn cli_text(r: &mut Rng) -> String {
+    let mut t = match r.below(4) {
+        0 => r.s(WASM_TRIGGERS).to_string(),
+        1 => format!("{} {}", r.s(WASM_TRIGGERS), money_text(r)),
+        2 => format!("{} {}", r.s(MERGE_TRIGGERS), r.s(WASM_TRIGGERS)),
+        _ => format!("{}\n\n{}", r.s(WASM_TRIGGERS), r.s(MERGE_TRIGGERS)),
+    };
+    t.retain(|c| c.is_ascii() && c != '\t' && c != '\r');
+    t.push('\n');
+    t
+}
+
+fn random_subs(r: &mut Rng) -> Vec<Vec<(usize, usize)>> {
+    let k = 2 + r.below(2);
+    let range = *r.pick(&[4usize, 8, 12, 30]);
+    (0..k)
+        .map(|_| {
+            let n = r.below(6);
+            (0..n)
+                .map(|_| {
+                    let a = r.below(range + 1);
+                    let b = r.below(range + 1);
+                    if r.chance(1, 12) { (a.min(b), a.min(b)) } else { (a.min(b), a.max(b)) }
+                })
+                .collect()
+        })
+        .collect()
+}
+
+pub fn replay_any(rep: &mut Report, cxw: &mut Option<WasmCtx>, cxc: &mut Option<CliCtx>, out: &str, dict: &Arc<FstDictionary>, v: &Value) {
     match v["kind"].as_str().unwrap_or("spans") {
+        "cli" | "cli_build" => {
+            if cxc.is_none() {
+                *cxc = CliCtx::new(rep, out);
+            }
+            if let (Some(cx), Some(text)) = (cxc.as_mut(), v["text"].as_str()) {
+                check_cli_batch(rep, cx, &[(text.to_string(), v["count"].as_bool().unwrap_or(false))], "replay");
+            }
+        }
+        "mergemacro" => {
+            let subs: Vec<Vec<(usize, usize)>> = v["subs"]
+                .as_array()
+                .map(|a| a.iter().map(|s| s.as_array().map(|x| x.iter().map(|p| (p[0].as_u64().unwrap_or(0) as usize, p[1].as_u64().unwrap_or(0) as usize)).collect()).unwrap_or_default()).collect())
+                .unwrap_or_default();
+            if subs.len() == 2 || subs.len() == 3 {
+                check_merge_macro(rep, dict, &subs, "replay");
+            }
+        }
         "wasm" => {
             let picks: Vec<usize> = v["ignore"].as_array().map(|a| a.iter().map(|x| x.as_u64().unwrap_or(0) as usize).collect()).unwrap_or_default();
             let cx = cxw.get_or_insert_with(WasmCtx::new);
@@ -480,11 +893,12 @@ pub fn replay_input(rep: &mut Report, v: &Value) {
 
 pub fn run(a: &Args, corpus: &[Value]) {
     let mut rep = Report::new(&a.out);
-    rep.rule = "span lists: corpus, random multisets (0-40 spans, coordinate range 4..200, zero-width forced 1/12), span lists of all lints of generated documents (all rules on), malformed stream (start>end; correspondence+no-panic only); thorough adds every sequence of <=5 spans over coordinates 0..4. phase 3: texts through the real harper_wasm::Linter (lint, ignore 0-3 reported lints, lint again, fix all through apply_suggestion last first; W/F lines against the caller model fed with the raw LintGroup lints), money texts through CurrencyPlacement (C lines: candidate generation + overlap removal), trigger sentences through the four merge_linters! linters (output must be a fixpoint of the model). non-trivial = distinct well-formed list with >=2 spans of which >=1 is dropped".into();
+    rep.rule = "span lists: corpus, random multisets (0-40 spans, coordinate range 4..200, zero-width forced 1/12), span lists of all lints of generated documents (all rules on), malformed stream (start>end; correspondence+no-panic only); thorough adds every sequence of <=5 spans over coordinates 0..4. phase 3: texts through the real harper_wasm::Linter (lint, ignore 0-3 reported lints, lint again, fix all through apply_suggestion last first; W/F lines against the caller model fed with the raw LintGroup lints), money texts through CurrencyPlacement (C lines: candidate generation + overlap removal), trigger sentences through the four merge_linters! linters (output must be a fixpoint of the model). phase 4: the real merge_linters! body expanded in the harness over 2 and 3 test sub-linters with planned outputs (M lines: kept ids); trigger texts written to files and linted by the harper-cli BINARY (main.rs built unmodified; `lint` and `lint --count`), its stdout parsed back (count / 'No lints found' / coloured characters + label anchors and messages of the ariadne report; L lines). non-trivial = distinct well-formed list with >=2 spans of which >=1 is dropped".into();
     let dict0 = FstDictionary::curated();
     let mut cxw: Option<WasmCtx> = None;
+    let mut cxc: Option<CliCtx> = None;
     for c in corpus {
-        replay_any(&mut rep, &mut cxw, &dict0, c);
+        replay_any(&mut rep, &mut cxw, &mut cxc, &a.out, &dict0, c);
     }
     if a.replay.is_some() {
         rep.finish();
@@ -549,6 +963,28 @@ pub fn run(a: &Args, corpus: &[Value]) {
     for i in 0..a.scale(150, 2000) {
         let text = if i % 3 == 2 { gen::any_text(&mut r) } else { format!("{} {}", r.s(MERGE_TRIGGERS), r.s(MERGE_TRIGGERS)) };
         check_merged(&mut rep, &dict, &text, "merged");
+    }
+    // ---- phase 4: the real merge_linters! body on planned sub-linter outputs; harper-cli as a binary ----
+    for _ in 0..a.scale(3000, 60000) {
+        let subs = random_subs(&mut r);
+        check_merge_macro(&mut rep, &dict, &subs, "mergemacro");
+    }
+    if cxc.is_none() {
+        cxc = CliCtx::new(&mut rep, &a.out);
+    }
+    if let Some(cx) = cxc.as_mut() {
+        let n = a.scale(40, 600);
+        let mut jobs: Vec<(String, bool)> = vec![];
+        for i in 0..n {
+            let t = if i % 6 == 5 { "This sentence is fine.\n".to_string() } else { cli_text(&mut r) };
+            jobs.push((t.clone(), false));
+            if i % 2 == 0 {
+                jobs.push((t, true));
+            }
+        }
+        for ch in jobs.chunks(12) {
+            check_cli_batch(&mut rep, cx, ch, "cli");
+        }
     }
     rep.extra.insert("documents_linted".into(), json!(docs));
     rep.extra.insert("documents_with_overlapping_lints".into(), json!(with_overlap));
